@@ -59,7 +59,10 @@ Inductive ev :=
 | EStep (c : nat)         (* oldest running request of c: body rest / handler released / response finished *)
 | EDisconnect (c : nat)   (* fault: client c drops the connection *)
 | EGarbage (c : nat)      (* fault: raw client c sends bytes that are no protocol *)
-| EHandlerErr (c : nat).  (* fault: the handler of c's oldest request returns an error *)
+| EHandlerErr (c : nat)   (* fault: the handler of c's oldest request returns an error *)
+| EKeepFuture.            (* the caller keeps the completed serving future alive (instead of dropping it at
+                             once): the listener inside it stays open, connects still queued are never
+                             answered *)
 
 Inductive oev :=
 (* echo of the environment *)
@@ -120,30 +123,33 @@ Record state := mkSt {
   s_lost : bool;
   s_armed : bool;
   s_sigarm : option nat;  (* the make-service will resolve the signal: connections still to admit before *)
+  s_keep : bool;          (* the completed serving future is kept alive by the caller *)
   s_queue : list qent;
   s_conns : list conn;
   s_out : list oev
 }.
 
-Definition init : state := mkSt SPreparing false false false None [] [] [].
+Definition init : state := mkSt SPreparing false false false None false [] [] [].
 
 (* ---- setters *)
 Definition emit (o : oev) (s : state) : state :=
-  mkSt (s_srv s) (s_fired s) (s_lost s) (s_armed s) (s_sigarm s) (s_queue s) (s_conns s) (o :: s_out s).
+  mkSt (s_srv s) (s_fired s) (s_lost s) (s_armed s) (s_sigarm s) (s_keep s) (s_queue s) (s_conns s) (o :: s_out s).
 Definition set_srv (v : sstate) (s : state) : state :=
-  mkSt v (s_fired s) (s_lost s) (s_armed s) (s_sigarm s) (s_queue s) (s_conns s) (s_out s).
+  mkSt v (s_fired s) (s_lost s) (s_armed s) (s_sigarm s) (s_keep s) (s_queue s) (s_conns s) (s_out s).
 Definition set_fired (v : bool) (s : state) : state :=
-  mkSt (s_srv s) v (s_lost s) (s_armed s) (s_sigarm s) (s_queue s) (s_conns s) (s_out s).
+  mkSt (s_srv s) v (s_lost s) (s_armed s) (s_sigarm s) (s_keep s) (s_queue s) (s_conns s) (s_out s).
 Definition set_lost (v : bool) (s : state) : state :=
-  mkSt (s_srv s) (s_fired s) v (s_armed s) (s_sigarm s) (s_queue s) (s_conns s) (s_out s).
+  mkSt (s_srv s) (s_fired s) v (s_armed s) (s_sigarm s) (s_keep s) (s_queue s) (s_conns s) (s_out s).
 Definition set_armed (v : bool) (s : state) : state :=
-  mkSt (s_srv s) (s_fired s) (s_lost s) v (s_sigarm s) (s_queue s) (s_conns s) (s_out s).
+  mkSt (s_srv s) (s_fired s) (s_lost s) v (s_sigarm s) (s_keep s) (s_queue s) (s_conns s) (s_out s).
 Definition set_sigarm (v : option nat) (s : state) : state :=
-  mkSt (s_srv s) (s_fired s) (s_lost s) (s_armed s) v (s_queue s) (s_conns s) (s_out s).
+  mkSt (s_srv s) (s_fired s) (s_lost s) (s_armed s) v (s_keep s) (s_queue s) (s_conns s) (s_out s).
+Definition set_keep (v : bool) (s : state) : state :=
+  mkSt (s_srv s) (s_fired s) (s_lost s) (s_armed s) (s_sigarm s) v (s_queue s) (s_conns s) (s_out s).
 Definition set_queue (v : list qent) (s : state) : state :=
-  mkSt (s_srv s) (s_fired s) (s_lost s) (s_armed s) (s_sigarm s) v (s_conns s) (s_out s).
+  mkSt (s_srv s) (s_fired s) (s_lost s) (s_armed s) (s_sigarm s) (s_keep s) v (s_conns s) (s_out s).
 Definition set_conns (v : list conn) (s : state) : state :=
-  mkSt (s_srv s) (s_fired s) (s_lost s) (s_armed s) (s_sigarm s) (s_queue s) v (s_out s).
+  mkSt (s_srv s) (s_fired s) (s_lost s) (s_armed s) (s_sigarm s) (s_keep s) (s_queue s) v (s_out s).
 
 Fixpoint upd {A} (n : nat) (f : A -> A) (l : list A) : list A :=
   match l, n with
@@ -290,11 +296,13 @@ Definition server_poll (g : cfg) (s : state) : state :=
          else accept_loop g (s_queue s) s
   end.
 
-(* the listener went away with the serving future: every connect still waiting fails *)
+(* the listener went away with the serving future: every connect still waiting fails -- unless the
+   caller keeps the completed future (and the listener in it) alive: then it just never gets an answer *)
 Definition refuse (s : state) (c : nat) : state :=
   match get c s with
   | Some x => match c_ph x with
-              | Queued => emit (ORefused c) (modc c (w_ph Refused) s)
+              | Queued => if s_keep s then modc c (w_ph Refused) s        (* never answered *)
+                          else emit (ORefused c) (modc c (w_ph Refused) s)
               | _ => s
               end
   | None => s
@@ -424,6 +432,7 @@ Definition step (g : cfg) (s : state) (e : ev) : state :=
   | EDisconnect c => emit OQuiet (act_disc c (settle g s))
   | EGarbage c => emit OQuiet (act_garb c (settle g s))
   | EHandlerErr c => emit OQuiet (act_herr g c (settle g s))
+  | EKeepFuture => set_keep true s
   end.
 
 Definition run_from (g : cfg) (s : state) (evs : list ev) : state := fold_left (step g) evs s.
